@@ -39,12 +39,17 @@ Fixpoint within (sel : msg -> bool) (l : list msg) (k last : Z) : bool :=
 Fixpoint nodupb (l : list Z) : bool :=
   match l with [] => true | x :: l' => negb (existsb (Z.eqb x) l') && nodupb l' end.
 
-Inductive sfinding := SF_check_swallows | SF_junk_move_count | SF_expunge_unannounced.
+(** the one remaining class: an "* n EXPUNGE" of the session's own EXPUNGE, UID EXPUNGE or
+    STORE(Junk) names a message the session was never told about *)
+Inductive sfinding := SF_expunge_unannounced.
 
 Definition classify_step (c : scmd) (rows : list msg) (last : Z) : option sfinding :=
   match c with
-  | CCheck => if count_of rows =? last then None else Some SF_check_swallows
-  | CJunk s => match fst (fst (handle_store_junk s rows)) with [] => None | _ => Some SF_junk_move_count end
+  | CJunk s =>
+    match cnt_replay (map NExpunge (fst (fst (handle_store_junk s rows)))) (Some last) with
+    | Some _ => None
+    | None => Some SF_expunge_unannounced
+    end
   | CExpunge =>
     if within (fun m => sql_deleted (m_flags m)) rows 1 last then None else Some SF_expunge_unannounced
   | CUidExpunge s =>
